@@ -33,7 +33,8 @@ pub const RULE: &str = "exhaustive sweeps: Sphere sectors 3..N x segments 2..N x
 Cylinder sectors 3..N x segments 1..N x capped/uncapped x 5 radii; Cone likewise x 7 (base, apex) radius pairs incl. apex 0 and base 0; \
 Capsule sectors 3..N x cap segments 1..N x body segments (all of 1..N quick, the ladder 1,2,3,5,9,24,48,96 thorough) x 3 radii; N = 24 quick, 96 thorough; \
 the 4 parameterless Platonic solids + Box::cube over 6 sides + Box::default; proptest: Box over random non-degenerate extents, raw Lathe over random \
-y-monotone profiles (2..8 points, ends optionally on the axis), sectors 3..N, capped/uncapped, full / shifted-full / partial azimuth ranges. \
+y-monotone profiles (2..8 points, ends optionally on the axis), sectors 3..N, capped/uncapped, full / shifted-full / partial azimuth ranges; \
+wide-range: the five parametric solids with sectors from {3..24, 25..128, 255/256/257/511/512/513/1024, 129..1100}, few segments, radius log-uniform in 1e-9..1e9 (sphere, torus) or 1e-3..1e3 (fixed-height solids). \
 Every parameter tuple is one case. Non-trivial = a count above the generator's minimum, or a capped / partial-azimuth variant; \
 Platonic solids and boxes have no smaller variant and all count. Enumerated cases are distinct by construction, generated ones by hash.";
 
@@ -985,6 +986,76 @@ fn lathe_case(max_sectors: u32) -> BoxedStrategy<Solid> {
         .boxed()
 }
 
+/// Parametric solids far from the enumerated lattice: dense sector counts (up to 1100, with weight on 255/256/257 and
+/// 511/512/513) and radii over 18 orders of magnitude (sphere, torus: everything scales with the radius) or 6 orders
+/// (solids of fixed height 2).
+fn wide_case() -> BoxedStrategy<Solid> {
+    let sectors = prop_oneof![
+        2 => 3u32..=24,
+        2 => 25u32..=128,
+        2 => proptest::sample::select(vec![255u32, 256, 257, 511, 512, 513, 1024]),
+        1 => 129u32..=1100,
+    ];
+    let seg = |lo: u32| prop_oneof![3 => lo..=lo + 1, 2 => lo..=8];
+    let rad_free = prop_oneof![1 => Just(1.0f32), 5 => log_uniform(-9.0, 9.0), 1 => log_uniform(-7.0, -5.0)];
+    let rad_h = prop_oneof![1 => Just(1.0f32), 4 => log_uniform(-3.0, 3.0)];
+    prop_oneof![
+        3 => (sectors.clone(), seg(2), rad_free.clone()).prop_map(|(sectors, segments, r)| Solid::Sphere { sectors, segments, radius: X(r) }),
+        3 => (sectors.clone(), prop_oneof![3 => 3u32..=5, 1 => 3u32..=40], rad_free, 0.03f32..0.95)
+            .prop_map(|(major_sectors, minor_sectors, big, q)| Solid::Torus { major_sectors, minor_sectors, major_radius: X(big), minor_radius: X(big * q) }),
+        2 => (sectors.clone(), seg(1), any::<bool>(), rad_h.clone()).prop_map(|(sectors, segments, capped, r)| Solid::Cylinder { sectors, segments, capped, radius: X(r) }),
+        2 => (sectors.clone(), seg(1), any::<bool>(), rad_h.clone(), prop_oneof![2 => Just(0.0f32), 3 => 0.01f32..2.0], any::<bool>()).prop_map(
+            |(sectors, segments, capped, r, q, flip)| {
+                let (b, a) = if flip { (r * q, r) } else { (r, r * q) };
+                Solid::Cone { sectors, segments, capped, base_radius: X(b), apex_radius: X(a) }
+            }
+        ),
+        2 => (sectors, seg(1), seg(1), rad_h).prop_map(|(sectors, body_segments, cap_segments, r)| Solid::Capsule { sectors, body_segments, cap_segments, radius: X(r) }),
+    ]
+    .boxed()
+}
+
+fn check_wide(s: &Solid, obs: &mut Obs) -> Check {
+    let (secs, r) = match s {
+        Solid::Sphere { sectors, radius, .. } => (*sectors, radius.0),
+        Solid::Torus { major_sectors, major_radius, .. } => (*major_sectors, major_radius.0),
+        Solid::Cylinder { sectors, radius, .. } => (*sectors, radius.0),
+        Solid::Cone { sectors, base_radius, apex_radius, .. } => (*sectors, base_radius.0.max(apex_radius.0)),
+        Solid::Capsule { sectors, radius, .. } => (*sectors, radius.0),
+        _ => fail!("bad-case", "not a parametric solid"),
+    };
+    obs.class(match secs {
+        0..=24 => "wide:sectors 3..24",
+        25..=128 => "wide:sectors 25..128",
+        129..=255 => "wide:sectors 129..255",
+        _ => "wide:sectors >= 256",
+    });
+    obs.class(if r < 1e-4 {
+        "wide:radius < 1e-4"
+    } else if r < 1e-2 {
+        "wide:radius 1e-4..1e-2"
+    } else if r <= 1e2 {
+        "wide:radius 1e-2..1e2"
+    } else if r <= 1e4 {
+        "wide:radius 1e2..1e4"
+    } else {
+        "wide:radius > 1e4"
+    });
+    // the rings are built by repeated rotation: the seam closes to about 1e-8 * sectors * scale (measured). Merging uses
+    // one global tolerance (a fifth of the shortest ideal edge), so a solid whose smallest ring is finer than the seam
+    // drift of its largest one cannot be judged by it: outside this check's domain (counted)
+    let sp = spec(s)?;
+    if 0.2 * sp.min_feature < 1e-7 * secs as f64 * sp.scale {
+        obs.excluded("wide-range: shortest ideal edge below 5e-7 * sectors * scale (global merge tolerance cannot separate it from the seam drift of the largest ring)");
+        return Ok(());
+    }
+    check_solid(s, obs)?;
+    if secs > 24 || !(1e-2..=1e2).contains(&r) {
+        obs.nontrivial(hash_of(s));
+    }
+    Ok(())
+}
+
 fn check_generated(s: &Solid, obs: &mut Obs) -> Check {
     // the generator's own guarantees, re-derived: outside them the case is not asserted
     if let Solid::Lathe { pts, sectors, capped, az_start, az_end } = s {
@@ -1135,13 +1206,16 @@ pub fn run(cx: &mut Ctx) {
     // raw lathe
     let nl = cx.n(12_000, 300_000);
     cx.prop_check("lathe", nl, move || lathe_case(n), |c, obs| check_generated(c, obs));
+    // parametric solids away from the enumerated lattice
+    let nw = cx.n(6_000, 150_000);
+    cx.prop_check("wide-range", nw, wide_case, |c, obs| check_wide(c, obs));
 }
 
 pub fn replay(sub: &str, case: &Value) -> Check {
     let mut obs = Obs::new();
     obs.freeze();
     match sub {
-        "platonic" | "sphere" | "torus" | "cylinder" | "cone" | "capsule" | "box" | "lathe" => {
+        "platonic" | "sphere" | "torus" | "cylinder" | "cone" | "capsule" | "box" | "lathe" | "wide-range" => {
             let c: Solid = serde_json::from_value(case.clone()).map_err(|e| Fail::new("bad-replay", e.to_string()))?;
             check_solid(&c, &mut obs)
         }
